@@ -57,6 +57,7 @@ def units(tier):
     for i in range(40):
         chain = ["and" if i % 2 else "or", [chain]]
     add("andor40", chain, vlen=1, alen=1)
+    add("history_of_failures", ["and", [["eq"], ["not", ["sub_iaf"]]]], vlen=1, alen=1, history=40000)
     if tier == "thorough":
         for a in LEAF_KINDS[::2]:
             for b in LEAF_KINDS[1::3]:
@@ -194,7 +195,9 @@ def body(ctx, shape):
     # influence what the same text parses to afterwards
     _scribble(F, f2)
     for bad in ("(", "(&(a=b)", "(a=\\zz)", "((a=b))", "(!(a=b)(c=d))", "a"):
-        for _ in range(3):
+        # (one unit repeats this tens of thousands of times: the outcome of a parse must not depend
+        # on how many earlier inputs were rejected)
+        for _ in range(3 if not shape.get("history") else shape["history"] // 6):
             try:
                 F.LDAPFilter.from_string(bad)
             except ValueError:
